@@ -2178,20 +2178,24 @@ class DimensionConvention(Convention[GridKind, Index]):
         if index_dimension is None:
             index_dimension = utils.find_unused_dimension(self.dataset, 'index')
         if len(indexes) == 0:
-            raise ValueError("Need at least one index to select")
+            # Nothing to select, such as when every requested point missed the model.
+            # There is no index to take the grid kind from, use the default one
+            grid_kind = self.default_grid_kind
+            dimensions = self.grid_dimensions[grid_kind]
+            index_array = numpy.empty((0, len(dimensions)), dtype=int)
+        else:
+            grid_kinds, index_tuples = zip(*[self.unpack_index(index) for index in indexes])
 
-        grid_kinds, index_tuples = zip(*[self.unpack_index(index) for index in indexes])
+            unique_grid_kinds = set(grid_kinds)
+            if len(unique_grid_kinds) > 1:
+                raise ValueError(
+                    "All indexes must be on the same grid kind, got "
+                    + ", ".join(map(repr, unique_grid_kinds)))
 
-        unique_grid_kinds = set(grid_kinds)
-        if len(unique_grid_kinds) > 1:
-            raise ValueError(
-                "All indexes must be on the same grid kind, got "
-                + ", ".join(map(repr, unique_grid_kinds)))
-
-        grid_kind = grid_kinds[0]
-        dimensions = self.grid_dimensions[grid_kind]
-        # This array will have shape (len(indexes), len(dimensions))
-        index_array = numpy.array(index_tuples)
+            grid_kind = grid_kinds[0]
+            dimensions = self.grid_dimensions[grid_kind]
+            # This array will have shape (len(indexes), len(dimensions))
+            index_array = numpy.array(index_tuples)
         # `isel` counts negative positions from the end of the dimension,
         # a negative index would silently select some other cell
         if (index_array < 0).any():
